@@ -44,6 +44,7 @@ RULE += (' Also: a value sent through a handle over a generator that was never a
 RULE += (' Also: a chain closed before its first item has closed the handles it was given.')
 RULE += (' Also: sum over a handle whose first item cannot be added stops at that item.')
 RULE += (' Also: an ended scope context cannot be entered a second time.')
+RULE += (' Also: the handle zipped with a class iterator that has nothing to close; a set built from a chain whose first element is unhashable.')
 ASSUMPTIONS = ["laziness of the tools themselves is C05's concern; here the stdlib twin predicts how many items a tool takes",
                "athrow on a LIVE handle is not part of the property's operation list and is not generated; athrow on a closed handle is"]
 EXHAUSTIVE_SUBSPACES = 'all histories of length <= 3 (thorough: 4) over a 13-operation alphabet'
@@ -69,6 +70,22 @@ def _uid(x):
     if isinstance(x, (tuple, list)):
         return tuple(_uid(y) for y in x)
     return x
+
+
+class _bare:
+    """A class-based async iterator without ``aclose`` (nothing to close)."""
+
+    def __init__(self, items):
+        self._it = iter(items)
+
+    def __aiter__(self):
+        return self
+
+    async def __anext__(self):
+        try:
+            return next(self._it)
+        except StopIteration:
+            raise StopAsyncIteration from None
 
 
 class _Thrown(Exception):
@@ -261,6 +278,10 @@ TOOLS = {
     # follows the rejected item is still on the shared handle
     "dict_rejects_item": ("agg", lambda h: A.dict(h), lambda it: dict(it)),
     "dict_rejects_later_item": ("agg", lambda h: A.dict(A.chain([(0, 0)], h)), lambda it: dict(itertools.chain([(0, 0)], it))),
+    # the handle next to a class-based iterator that has nothing to close: the handle is closed all the same
+    "zip_with_bare_source": ("iter", lambda h: A.zip(h, _bare([7, 8, 9])), lambda it: zip(it, [7, 8, 9])),
+    "zip_bare_source_first": ("iter", lambda h: A.zip(_bare([7, 8]), h), lambda it: zip([7, 8], it)),
+    "set_rejects_first": ("agg", lambda h: A.set(A.chain([[0]], h)), lambda it: set(itertools.chain([[0]], it))),
     "sum_rejects_item": ("agg", lambda h: A.sum(h), lambda it: sum(it)),
     "set_items": ("agg", lambda h: A.set(h), lambda it: set(it)),
     "tuple_items": ("agg", lambda h: A.tuple(h), lambda it: tuple(it)),
